@@ -692,6 +692,33 @@ def generate(outdir):
     disp.append('def classNames : List String := [' + ', '.join(f'"{n}"' for n in names) + ']')
     disp.append('end Gen')
     files['Dispatch.lean'] = '\n'.join(disp) + '\n'
+    # per-property extension targets: harness/targets.d/<Module>.json ->  Gen/<Module>.lean
+    #   {"functions": [[file, qualname, leanname], ...], "classes": [[file, class, method, leanname?], ...]}
+    tdir = os.path.join(os.path.dirname(os.path.abspath(__file__)), 'targets.d')
+    metas['ext'] = {}
+    if os.path.isdir(tdir):
+        for fn in sorted(os.listdir(tdir)):
+            if not fn.endswith('.json'):
+                continue
+            modname = fn[:-5]
+            spec = json.load(open(os.path.join(tdir, fn)))
+            parts, em = [], {'functions': [], 'classes': []}
+            for t in spec.get('functions', []):
+                try:
+                    tx, m = translate_function(t[0], t[1], t[2])
+                    parts.append(tx)
+                    em['functions'].append(m)
+                except Untranslatable as e:
+                    errors.append(str(e))
+            for t in spec.get('classes', []):
+                try:
+                    tx, m = translate_class(t[0], t[1], t[2], t[3] if len(t) > 3 else None)
+                    parts.append(tx)
+                    em['classes'].append(m)
+                except Untranslatable as e:
+                    errors.append(str(e))
+            files[modname + '.lean'] = HEADER + 'import Py4hwV.Gen.Helpers\n' + OPTS + '\n' + '\n\n'.join(parts) + '\n'
+            metas['ext'][modname] = em
     os.makedirs(outdir, exist_ok=True)
     changed = []
     for fn, txt in files.items():
